@@ -74,6 +74,7 @@ namespace {
         bool has_handle = false;
         u64 prio = 0;
         const char* last_site = "";
+        const void* wait_obj = nullptr; // mutex / thread the thread is blocked on
     };
 
     struct Event {
@@ -93,6 +94,7 @@ namespace {
 
     struct MutexState {
         int owner = -1;
+        int serial = 0; // order of first acquisition in this run (addresses are not deterministic)
     };
     struct CvWaiter {
         int tid;
@@ -117,6 +119,7 @@ namespace {
         u64 ev_id = 0;
         std::vector<u64> cancelled;
         std::map<const void*, MutexState> mutexes;
+        int mutex_serial = 0;
         std::map<const void*, std::vector<CvWaiter>> cvs;
         std::vector<u64> pct_points;
         u64 pct_low = 0;
@@ -441,6 +444,14 @@ std::string describe_threads()
     for (auto& t : g.threads) {
         s += "  t" + std::to_string(t->id) + " " + t->name + ": ";
         s += t->st == Runnable ? "runnable" : t->st == Blocked ? (std::string("blocked in ") + t->what) : "finished";
+        if (t->st == Blocked && t->wait_obj) {
+            auto mi = g.mutexes.find(t->wait_obj);
+            if (mi != g.mutexes.end() && mi->second.owner >= 0) {
+                char b[96];
+                snprintf(b, sizeof b, " [mutex #%d held by t%d]", mi->second.serial, mi->second.owner);
+                s += b;
+            }
+        }
         s += std::string(" (last site ") + t->last_site + ")\n";
     }
     return s;
@@ -597,9 +608,13 @@ namespace {
                 auto it = g.mutexes.find(m);
                 return it == g.mutexes.end() || it->second.owner == -1;
             };
+            self->wait_obj = m;
             block_until(pred, -1, "mutex.lock");
+            self->wait_obj = nullptr;
         }
-        g.mutexes[m].owner = self->id;
+        MutexState& acquired = g.mutexes[m];
+        acquired.owner = self->id;
+        acquired.serial = ++g.mutex_serial;
     }
     void sim_mutex_unlock(const void* m)
     {
